@@ -55,7 +55,8 @@ class GammaArm(Arm):
     budget = {"quick": 1500, "thorough": 12000}
     min_per_shard = 20
     case_timeout = 90
-    required_labels = ("vec", "novec", "euler", "scipy", "shared_source", "shared_target", "two_kernels", "high_order")
+    required_labels = ("vec", "novec", "euler", "scipy", "shared_source", "shared_target", "two_kernels", "high_order",
+                       "dde_approx:scipy")
 
     def strategy(self, ctx):
         @st.composite
@@ -74,11 +75,14 @@ class GammaArm(Arm):
             base = gen.uniquify_init(base)
             spec = add_gamma(draw, base)
             solver = draw(st.sampled_from(["euler", "euler", "scipy"]))
+            # dde_approx=n: plain delays become chains of n stages, kernels with fewer stages are raised to n stages
+            dde = draw(st.sampled_from([0, 0, 0, 3, 5]))
             dt = draw(st.sampled_from([0.01, 0.005]))
             if any(e.get("sp") and (e["d"] / e["sp"]) ** 2 >= 7.5 for e in spec["edges"]):
                 dt = 0.005      # (the Euler iteration of a chain is only stable for rate*dt < 2)
             return {"spec": spec, "cfg": {"dt": dt, "steps": draw(st.integers(15, 40)),
-                                          "vectorize": draw(st.sampled_from([True, False, True])), "solver": solver}}
+                                          "vectorize": draw(st.sampled_from([True, False, True])), "solver": solver,
+                                          "dde_approx": dde}}
         from ..finding_predicates import repair_case
         return case().map(lambda c: repair_case(c, ctx))
 
@@ -94,9 +98,11 @@ class GammaArm(Arm):
         sp = rm_user.state_paths
         kernels = []
         by_src, by_tgt = {}, {}
+        dde = int(cfg.get("dde_approx") or 0)
         for e in RefModel(spec).edges:
-            if e.get("sp") is not None:
-                n = int(np.round((e["d"] / e["sp"]) ** 2))
+            if e.get("sp") is not None or (dde and e.get("d") is not None):
+                n = int(np.round((e["d"] / e["sp"]) ** 2)) if e.get("sp") is not None else 0
+                n = max(n, dde)      # dde_approx=n: at least n stages, still of rate (stages)/d: the mean delay stays d
                 kernels.append((n, round(n / e["d"], 9)))
                 by_src.setdefault(e["s"], []).append(kernels[-1])
                 by_tgt.setdefault(e["t"], []).append(kernels[-1])
@@ -117,7 +123,9 @@ class GammaArm(Arm):
         if solver == "euler" and any(rate * dt > 1.6 for _, rate in kernels):
             res.rejected = "Euler iteration of a kernel chain not stable at this step size (rate*dt > 1.6)"
             return res
-        if any(e.get("d") is not None and e.get("sp") is None for e in spec["edges"]):
+        if dde:
+            res.labels.append(f"dde_approx:{solver}")
+        if not dde and any(e.get("d") is not None and e.get("sp") is None for e in spec["edges"]):
             res.labels.append("discrete_delay_in_between")
             if solver != "euler":
                 res.rejected = "discrete delays under an adaptive solver are C10's subject"
@@ -142,7 +150,7 @@ class GammaArm(Arm):
             res.rejected = "delay-free baseline deviates from reference (C01/C04)"
             return res
         # reference: explicit augmented system
-        aug = augment_gamma(spec)
+        aug = augment_gamma(spec, dde_approx=dde)
         rma = RefModel(aug)
         cols = [rma.state_paths.index(p) for p in sp]
         if solver == "euler":
@@ -170,6 +178,8 @@ class GammaArm(Arm):
             res.rejected = "reference not benign"
             return res
         try:
+            if dde:
+                kw = dict(kw, dde_approx=dde)
             df = run_circuit(spec, T, dt, dict(outputs), vectorize=vec, solver=solver, **kw)
             a = np.column_stack([np.asarray(df[f"v{i}"], dtype=float) for i in range(len(sp))])
         except HarnessError:
